@@ -34,10 +34,16 @@ import (
 // HarnessC35QueueSched (c35_sched.go) runs real goroutines under the engine's exploring scheduler on top.
 // ---------------------------------------------------------------------------------------------------------
 
-const zz35EntrySize = 10
+// zz35ProtoSize stands in for proto.Size: every wantlist entry "costs" 48 bytes. Natively the real size of an
+// entry with a 36-byte CID is between 40 (cancel) and 48 (want-have + send-dont-have) bytes, so the limits
+// zz35OneEntry / zz35TwoEntries mean "one entry per message" / "two entries per message" under the engine and
+// natively alike.
+const (
+	zz35EntrySize  = 48
+	zz35OneEntry   = 40
+	zz35TwoEntries = 64
+)
 
-// zz35ProtoSize stands in for proto.Size: every wantlist entry "costs" zz35EntrySize bytes, so that
-// maxMessageSize = k*zz35EntrySize means "k entries per message".
 func zz35ProtoSize(m proto.Message) int { return zz35EntrySize }
 
 type zz35Q struct {
@@ -177,7 +183,7 @@ func zz35NewQ(ncid int) *zz35Q {
 	q.supportsHave = verifrt.NondetBool("supports_have")
 	// message size limit: one entry, two entries, or practically unlimited
 	// (a symbolic choice: the engine only splits where a size comparison actually depends on it)
-	maxSize := []int{zz35EntrySize, 2 * zz35EntrySize, maxMessageSize}[verifrt.Choose("max_msg", 3)]
+	maxSize := []int{zz35OneEntry, zz35TwoEntries, maxMessageSize}[verifrt.Choose("max_msg", 3)]
 	q.mq = newMessageQueue(context.Background(), peer.ID("remote"), &zz35Net{q: q}, maxSize, sendErrorBackoff, maxValidLatency, nil, nil)
 	q.mq.msg = &zz35Msg{BitSwapMessage: q.mq.msg, q: q}
 	return q
